@@ -82,6 +82,8 @@ class AlgebraicReductionRule(AbstractNaryRule):
                     new_ops = rule.apply(left, right)
                 except NoReduction:
                     continue
+                # a rule may produce an identity (e.g. block-wise products that all cancel)
+                new_ops = identity_rule.apply(new_ops)
                 operands[index : index + 2] = new_ops
 
                 # if the rule produces a HomothetyOperator, we deal with it first
